@@ -100,7 +100,7 @@ func c01(tier string) int {
 	run := ev.NewRun("C01", tier, "model_checking")
 	wh.InstallLogicalClock()
 	p := searchPlan{n: 8, divs: []int{0, 1, 3, 4}, stores: []string{"mem", "sql"}, cold: true,
-		alpha: wh.AlphaOpts{MaxN: 8, Forged: true, HugeOlds: true, RichProof: true}}
+		alpha: wh.AlphaOpts{MaxN: 8, Forged: true, HugeOlds: true, RichProof: true, Shapes: []string{"plain", "oddroot"}}}
 	if tier == "thorough" {
 		p.n, p.alpha.MaxN = 17, 17
 		p.divs = []int{0, 1, 2, 3, 4, 7, 8, 15, 16}
@@ -137,7 +137,7 @@ func c01(tier string) int {
 		}
 	}
 	run.Set("exhaustive", true)
-	run.Set("rule", fmt.Sprintf("explicit-state BFS over the real Witness to fixpoint on canonical states (size, root): universe main + forks diverging at %v, sizes 0..%d; alphabet = every old size 0..N+1 and 2^32, 2^63, 2^64-1 x every log-signed checkpoint of every branch x proofs (empty; adversarial proof on the submitted branch; proof on the stored branch; and, when old = stored size, proofs for s±1/n±1, first/last dropped, duplicated, zero-appended, each hash bit-flipped, short hash, replayed earlier proof, arbitrary hashes, root as proof) + forged checkpoints (other key, garbage signature, truncated, empty, wrong origin). Monitor: every state change checked against the leaf lists (prefix relation). distinct_nontrivial = distinct accepted (kind, from-state, to-state) transitions", p.divs, p.n))
+	run.Set("rule", fmt.Sprintf("explicit-state BFS over the real Witness to fixpoint on canonical states (size, root): universe main + forks diverging at %v, sizes 0..%d; alphabet = every old size 0..N+1 and 2^32, 2^63, 2^64-1 x every log-signed checkpoint of every branch, and at every size a log-signed checkpoint whose root is the root of no tree (at size 0: not the empty-tree hash), x proofs (empty; adversarial proof on the submitted branch; proof on the stored branch; and, when old = stored size, proofs for s±1/n±1, first/last dropped, duplicated, zero-appended, each hash bit-flipped, short hash, replayed earlier proof, arbitrary hashes, root as proof) + forged checkpoints (other key, garbage signature, truncated, empty, wrong origin). Monitor: every state change checked against the leaf lists (prefix relation). distinct_nontrivial = distinct accepted (kind, from-state, to-state) transitions", p.divs, p.n))
 	run.Assumption("SHA-256 collision resistance lets leaf-list prefix stand for hash consistency; Ed25519 trusted")
 	run.Assumption("the witness keeps only the latest checkpoint, and prefix is transitive, so checking each accepted step against its predecessor decides the whole-history statement")
 	return run.Finish()
